@@ -39,15 +39,33 @@ def handle (j : Json) : Except String Json := do
   | "query" =>
     let rays ← fldD j "rays" (jList (fun r => do
       match r with
-      | Json.arr #[o, d] => pure ((← jP o), (← jP d))
+      | Json.arr #[o, d] => pure ((← jP o), (← jP d), (none : Option Rat))
+      | Json.arr #[o, d, e] => pure ((← jP o), (← jP d), some (← jRat e))
       | _ => throw "ray expected")) []
     let eps ← fldD j "eps" jRat 0
-    let epsS ← fldD j "eps_s" jRat 0
+    let epsS0 ← fldD j "eps_s" jRat 0
     let ps ← fldD j "points" (jList jP) []
     let tids ← fldD j "tids" (jList jNat) []
+    -- broad phase: rays with the (unit) directions the code hands to `ray_bounds`, and its buffer
+    let brays ← fldD j "brays" (jList (fun r => do
+      match r with
+      | Json.arr #[o, d] => pure ((← jP o), (← jP d))
+      | _ => throw "ray expected")) []
+    let buf ← fldD j "buf" jRat 0
+    let radii ← fldD j "radii" (jList jRat) []
+    let tb := treeBounds ts
     pure <| obj [
-      ("rays", ofList (fun (od : P × P) =>
-        let o := od.1; let d := od.2
+      ("broad", ofList (fun (od : P × P) =>
+        let rb := rayBounds od.1 od.2 tb buf
+        obj [("box", Json.arr #[ofP rb.1, ofP rb.2]),
+             ("cands", ofList ofNat (candidates od.1 od.2 ts buf)),
+             ("hits", ofList (fun (h : Nat × Rat) => ofNat h.1) (rayHits od.1 od.2 ts)),
+             ("pruned", ofList (fun (h : Nat × Rat) => ofNat h.1) (rayHitsPruned od.1 od.2 ts buf))]) brays),
+      ("nearby", ofList (fun (pr : P × Rat) => ofList ofNat (nearbyFaces pr.1 pr.2 ts)) (ps.zip radii)),
+      ("rays", ofList (fun (od : P × P × Option Rat) =>
+        let o := od.1; let d := od.2.1
+        -- margin from the origin in ray-parameter units (per ray when the direction is not a unit vector)
+        let epsS := od.2.2.getD epsS0
         let hits := rayHits o d ts
         -- plane crossings too close to an edge / vertex, or too close to the origin: not general position
         let near := (planeHits o d ts).filter (fun h =>
